@@ -430,6 +430,7 @@ func translatePipeline(pkgs map[string]*pkgInfo) string {
 	b.WriteString(translateValidators(p))
 	b.WriteString(translateLoops(p))
 	b.WriteString(translateOriginLoop(p))
+	b.WriteString(translateOrchestration(p))
 	b.WriteString("end Cors.Gen.GoSrc\n")
 	return b.String()
 }
@@ -1164,6 +1165,83 @@ func translateOriginLoop(p *pkgInfo) string {
 	fmt.Fprintf(&b, "def originStep (ext : Ext) (credentialed pnaAny tolInsecure tolPSL : Bool) (st : %s) (raw : Bytes) : %s :=\n  %s\n\n", stTy, stTy, body)
 	if len(t.bad) > 0 {
 		fmt.Fprintf(&b, "/- UNSUPPORTED in the loop of validateOrigins: %s -/\n\n", strings.ReplaceAll(strings.Join(t.bad, " ;; "), "-/", "- /"))
+	}
+	return b.String()
+}
+
+// translateOrchestration: the order in which newInternalConfig runs the validators and accumulates their errors, as a
+// function from the validators' results (each an optional error) to the list handed to errors.Join.  Supported statements:
+// `if err := icfg.validateX(cfg.F); err != nil { errs = append(errs, err) }`, the PNA-modes test with its `new(…)` error,
+// plain copies `icfg.f = cfg.F` (recorded with the number of validators already run), and the final
+// `if len(errs) != 0 { return nil, errors.Join(errs...) }` / `return &icfg, nil`.
+func translateOrchestration(p *pkgInfo) string {
+	var fd *ast.FuncDecl
+	if p != nil {
+		for _, f := range p.files {
+			for _, d := range f.Decls {
+				if x, ok := d.(*ast.FuncDecl); ok && x.Name.Name == "newInternalConfig" && x.Body != nil {
+					fd = x
+				}
+			}
+		}
+	}
+	if fd == nil {
+		return "/-- `newInternalConfig` is missing from the source. -/\ndef newInternalConfigOrder : Unit := ()\n\n"
+	}
+	t := &tr{p: p}
+	arg := map[string]string{"validatePreflightStatus": "eStatus", "validateOrigins": "eOrigins", "validateMethods": "eMethods",
+		"validateRequestHeaders": "eReqHdrs", "validateMaxAge": "eMaxAge", "validateResponseHeaders": "eResHdrs"}
+	field := map[string]string{"validatePreflightStatus": "cfg.PreflightSuccessStatus", "validateOrigins": "cfg.Origins", "validateMethods": "cfg.Methods",
+		"validateRequestHeaders": "cfg.RequestHeaders", "validateMaxAge": "cfg.MaxAgeInSeconds", "validateResponseHeaders": "cfg.ResponseHeaders"}
+	var lines, copies []string
+	ran := 0
+	list := fd.Body.List
+	ok := len(list) >= 4 && codeText(list[0]) == "if cfg == nil { return nil, nil }" &&
+		codeText(list[len(list)-2]) == "if len(errs) != 0 { return nil, errors.Join(errs...) }" && codeText(list[len(list)-1]) == "return &icfg, nil"
+	if !ok {
+		t.bad = append(t.bad, "prologue or epilogue of newInternalConfig")
+	} else {
+		for _, st := range list[1 : len(list)-2] {
+			txt := codeText(st)
+			handled := false
+			if _, isDecl := st.(*ast.DeclStmt); isDecl && txt == "var ( icfg internalConfig errs []error )" {
+				handled = true
+			}
+			for v, a := range arg {
+				if txt == "if err := icfg."+v+"("+field[v]+"); err != nil { errs = append(errs, err) }" {
+					lines = append(lines, "let errs := match "+a+" with | some e => errs ++ [e] | none => errs")
+					ran++
+					handled = true
+				}
+			}
+			if txt == "if cfg.PrivateNetworkAccess && cfg.PrivateNetworkAccessInNoCORSModeOnly { err := new(cfgerrors.IncompatiblePrivateNetworkAccessModesError) errs = append(errs, err) }" {
+				lines = append(lines, "let errs := if (pna && pnaNoCors) then errs ++ [ETree.leaf CfgErr.pnaModes] else errs")
+				handled = true
+			}
+			if a, isA := st.(*ast.AssignStmt); isA && a.Tok == token.ASSIGN && len(a.Lhs) == 1 && len(a.Rhs) == 1 &&
+				strings.HasPrefix(exprText(a.Lhs[0]), "icfg.") && strings.HasPrefix(exprText(a.Rhs[0]), "cfg.") {
+				copies = append(copies, fmt.Sprintf("%d:%s=%s", ran, exprText(a.Lhs[0]), exprText(a.Rhs[0])))
+				handled = true
+			}
+			if !handled {
+				t.bad = append(t.bad, txt)
+				lines = append(lines, fmt.Sprintf("let errs : List Err := GoRt.unsupported %q", txt))
+			}
+		}
+	}
+	var b strings.Builder
+	fmt.Fprintf(&b, "/-- the order in which `newInternalConfig` accumulates the validators' errors; copies made on the way (validators run so far:field): %s -/\n", strings.Join(copies, " ; "))
+	fmt.Fprintf(&b, "def newInternalConfigOrder (pna pnaNoCors : Bool) (eStatus eOrigins eMethods eReqHdrs eMaxAge eResHdrs : Option Err) : List Err :=\n  let errs : List Err := []\n")
+	if !ok {
+		b.WriteString("  let errs : List Err := GoRt.unsupported \"prologue or epilogue\"\n")
+	}
+	for _, l := range lines {
+		b.WriteString("  " + l + "\n")
+	}
+	b.WriteString("  errs\n\n")
+	fmt.Fprintf(&b, "/-- the copies `icfg.f = cfg.F` of `newInternalConfig`, each with the number of validators that ran before it. -/\ndef newInternalConfigCopies : List Bytes := %s\n\n", leanBytesList(copies))
+	if len(t.bad) > 0 {
+		fmt.Fprintf(&b, "/- UNSUPPORTED in newInternalConfig: %s -/\n\n", strings.ReplaceAll(strings.Join(t.bad, " ;; "), "-/", "- /"))
 	}
 	return b.String()
 }
